@@ -24,7 +24,7 @@ PROBES = ["placements", "relocations", "capacity_full_refusal", "conveyor_target
 
 
 def budget(tier):
-    return 10000 if tier == "quick" else 2000000
+    return 14000 if tier == "quick" else 2000000
 
 
 def gen(rng, tier):
